@@ -61,7 +61,7 @@ fn gen_target(r: &mut Rng, n: usize, pool: &[Option<usize>]) -> T {
 
 pub fn run(cfg: &Cfg, out: &mut Out) {
     let mut r = cfg.rng(12);
-    let dags = cfg.n(120, 3000);
+    let dags = cfg.n(500, 8000);
     let per_dag = 60;
     for d in 0..dags {
         // ---- build a DAG in a real repo: commit 0 = root, then 3..=9 more
@@ -102,7 +102,7 @@ pub fn run(cfg: &Cfg, out: &mut Out) {
             let mut left = gen_target(&mut r, n, &pool);
             let pool2: Vec<Option<usize>> = if related { base.iter().chain(left.iter()).cloned().collect() } else { vec![] };
             let mut right = gen_target(&mut r, n, &pool2);
-            match r.below(12) { 0 => left = base.clone(), 1 => right = base.clone(), 2 => right = left.clone(), _ => {} }
+            match r.below(24) { 0 => left = base.clone(), 1 => right = base.clone(), 2 => right = left.clone(), _ => {} }
             let (lt, bt, rt) = (to_target(&left), to_target(&base), to_target(&right));
             let got = guard(|| merge_ref_targets(index, &lt, &bt, &rt).block_on());
             let res: Option<T> = match &got {
